@@ -131,6 +131,9 @@ def nonempty_violations(func, is_container=lambda call: True):
         if c is None or c not in nodes:
             return None
         n = strip(nodes[c])
+        # clang reports the whole `a || b` as condition of the block that evaluates only its last operand
+        while n['k'] == 'BinaryOperator' and n.get('op') in ('||', '&&') and b.get('termk') != 'BinaryOperator':
+            n = strip(n['c'][1])
         neg = False
         while n['k'] == 'UnaryOperator' and n.get('op') == '!':
             neg = not neg
